@@ -74,6 +74,9 @@ func (ex *Exec) strLen(s StrV) *Term {
 	case symBytes:
 		return bvConst(64, uint64(len(s.sym.bytes)))
 	case symDec:
+		if s.sym.lowered != nil {
+			return bvConst(64, uint64(len(s.sym.lowered.bytes)))
+		}
 		return decLen(s.sym.val, s.sym.signed)
 	}
 	panic(unsupported{"len of opaque string"})
@@ -214,6 +217,18 @@ func (ex *Exec) asBytes(s StrV) ([]*Term, bool) {
 	}
 	if s.sym.kind == symBytes {
 		return s.sym.bytes, true
+	}
+	if s.sym.kind == symDec {
+		// decimal rendering: fork on the digit count once per string (memoised), digits become byte variables
+		if s.sym.lowered == nil {
+			if s.sym.val.conc {
+				c := ex.concStr(s, "dec")
+				return ex.asBytes(StrV{s: c})
+			}
+			l := ex.lowerDec(s)
+			s.sym.lowered = l.sym
+		}
+		return s.sym.lowered.bytes, true
 	}
 	return nil, false
 }
